@@ -49,6 +49,9 @@ var (
 // Alive returns the number of scripted commands currently alive.
 func Alive() int { return int(aliveCount.Load()) }
 
+// NextSeq draws the next number of the global launch / signal / exit order (a marker for the harness).
+func NextSeq() int64 { return evSeq.Add(1) }
+
 // AliveProc reports whether a scripted command of process p is alive.
 func AliveProc(p string) bool {
 	allMu.Lock()
